@@ -74,13 +74,18 @@ def execute(chunk):
     for r in chunk:
         r = dict(r)
         f = _SCH[r["dict"]]._tag2field[r["tag"]]
-        try:
-            v = f.validate_value(r["s"])
-            r["res"] = "true" if v is True else "ret:" + repr(v)
-        except FIXMessageError as ex:
-            r["res"] = "exc:FIXMessageError" if type(ex) is FIXMessageError else "exc:" + type(ex).__name__
-        except Exception as ex:
-            r["res"] = "exc:" + type(ex).__name__
+        def one(sv):
+            try:
+                v = f.validate_value(sv)
+                return "true" if v is True else "ret:" + repr(v)
+            except FIXMessageError as ex:
+                return "exc:FIXMessageError" if type(ex) is FIXMessageError else "exc:" + type(ex).__name__
+            except Exception as ex:
+                return "exc:" + type(ex).__name__
+        r["res"] = one(r["s"])
+        if r.get("pair"):
+            r["resneg"] = one("-" + r["s"])
+            r.pop("pair")
         out.append(r)
     return out
 
@@ -116,6 +121,11 @@ def run(ctx):
             for sv in strings:
                 recs.append({"id": "v%d" % n, "dict": dname, "tag": f.tag, "type": t, "s": sv, "soh": "\x01", "enums": [], "special": ""})
                 n += 1
+            if t in ("INT", "FLOAT", "QTY", "PRICE", "PRICEOFFSET", "AMT", "PERCENTAGE"):
+                for sv in strings:
+                    if sv and not sv.startswith("-") and len(sv) < maxlen:
+                        recs.append({"id": "v%d" % n, "dict": dname, "tag": f.tag, "type": t, "s": sv, "soh": "\x01", "enums": [], "special": "", "pair": True})
+                        n += 1
         # EndSeqNo special case
         if "16" in s._tag2field:
             for sv in ["0", "1", "00", "-1", "a", "10"]:
